@@ -74,6 +74,10 @@ type Store struct {
 	Monitor  func(key string, old []byte, had bool, val []byte) string // returns "" or a violation text
 	MonErrs  []string
 	NoPark   bool // serve without parking even when Sched is set
+	// Retain: Set keeps the caller's slice instead of a copy until the end of the run, as a transactional store
+	// does with its pending writes (objbadger.Txn hands the slice to badger's transaction, which holds it until
+	// commit): a caller that reuses its buffer after Set changes what was "stored"
+	Retain bool
 	opCounts [8]int
 	Closed   int
 }
@@ -163,6 +167,9 @@ func (s *Store) Set(key, val []byte) error {
 	raceDisable()
 	k := string(key)
 	v := cp(val)
+	if s.Retain {
+		v = val
+	}
 	s.mu.Lock()
 	old, had := s.m.get(k)
 	s.m.set(k, v)
